@@ -323,7 +323,7 @@ func (propC02) Check(k *Kernel, cov *Coverage) *Violation {
 			}
 			shape := fieldShape(k.W, rpc, rpc.In, f)
 			if c.Status != 400 || len(c.Seen) != 0 {
-				return &Violation{Class: "bad-url-value-accepted", Signature: sig("bad-url-value-accepted", shape),
+				return &Violation{Class: "bad-url-value-accepted", Signature: "C02|bad-url-value-accepted|" + c.Op.Server + "|" + placeOf(shape),
 					Detail: fmt.Sprintf("op %d %s %s: %s field %q, want 400 and no dispatch; got status %d, dispatched=%d seen=%s", c.Op.ID, c.Op.Raw.Verb, c.Op.Raw.Target, what, f, c.Status, len(c.Seen), seenAll(c))}
 			}
 			ve, err := decodeValidation(c)
@@ -365,7 +365,7 @@ func (propC02) Check(k *Kernel, cov *Coverage) *Violation {
 		}
 		if !proto.Equal(got, want) {
 			f := firstDiff(want, got)
-			return &Violation{Class: "url-field-lost", Signature: sig("url-field-lost", placeOf(fieldShape(k.W, rpc, rpc.In, f))),
+			return &Violation{Class: "url-field-lost", Signature: "C02|url-field-lost|" + c.Op.Server + "|" + placeOf(fieldShape(k.W, rpc, rpc.In, f)),
 				Detail: fmt.Sprintf("op %d %s %s body=%q: contract predicts the handler sees %s (URL-bound fields from the URL + body fields), it saw %s (field %q differs)", c.Op.ID, c.Op.Raw.Verb, c.Op.Raw.Target, truncBytes(c.Op.Raw.Body), jsonOf(want), jsonOf(got), f)}
 		}
 		cov.Tuple(k.W.Name, c.Op.RPC, c.Op.Server, "fam="+fam, "body="+body, "delivered")
